@@ -251,6 +251,31 @@ func (g *c04Gen) entry(d int) []*c04Node {
 	return ops
 }
 
+// tokenize: every call below the entry level (the entry script has no method tokens; its callees are the trampolines)
+// becomes a CALLT through a method token with probability pct
+func c04Tokenize(r *rng, n *c04Node, inContract bool, pct int) {
+	if n == nil {
+		return
+	}
+	switch n.tag() {
+	case c04Call:
+		if inContract && n.C < c04NContracts && n.Flags <= 15 && r.chance(pct) {
+			n.T = true
+		}
+		c04Tokenize(r, n.Body, true, pct)
+		return
+	case c04Move, c04MoveNeo:
+		c04Tokenize(r, n.Body, true, pct)
+		return
+	}
+	for _, o := range n.Ops {
+		c04Tokenize(r, o, inContract, pct)
+	}
+	c04Tokenize(r, n.Body, inContract, pct)
+	c04Tokenize(r, n.Catch, inContract, pct)
+	c04Tokenize(r, n.Fin, inContract, pct)
+}
+
 // clone via JSON
 func (n *c04Node) clone() *c04Node {
 	b, _ := json.Marshal(n)
@@ -615,6 +640,9 @@ func (p *c04Pair) runCase(co *caseOut, in c04Input) {
 	if root.any(func(x *c04Node) bool { return x.tag() == c04MoveNeo }) {
 		tag += "/neo"
 	}
+	if root.any(func(x *c04Node) bool { return x.T }) {
+		tag += "/callt"
+	}
 	co.add(kind, tag, root.hasFailure(), in, impl, term)
 }
 
@@ -720,6 +748,10 @@ func runC04(args []string) error {
 				return
 			}
 			cur = p.a.observe()
+		}
+		tokPct := pick(r, []int{0, 40, 40, 100})
+		for _, o := range ops {
+			c04Tokenize(r, o, false, tokPct)
 		}
 		in := c04Input{Pre: cur, Ops: ops, Snd: r.intn(1 + c04NSenders)}
 		if r.chance(30) {
@@ -837,8 +869,11 @@ func runC04(args []string) error {
 			in.Ops = append(in.Ops, c04GenEnder(r))
 		}
 		in.Ops = append(in.Ops, c04GenLater(r))
-		for k := range in.Ops { // two or three different payers in one block
+		for k := range in.Ops { // two or three different payers in one block; call forms mixed
 			in.Ops[k].Snd = r.intn(1 + c04NSenders)
+			for _, o := range in.Ops[k].Ops {
+				c04Tokenize(r, o, false, pick(r, []int{0, 50, 100}))
+			}
 		}
 		func() {
 			defer func() {
